@@ -535,6 +535,8 @@ func (in *Interp) loadFrom(addr Value) Value {
 		return load(a)
 	case Ref:
 		return in.selectRef(a)
+	case RORef:
+		return copyVal(a.v)
 	}
 	unsup("load from %T", addr)
 	return nil
@@ -609,8 +611,45 @@ func (in *Interp) indexAddr(x Value, idx *Term, idxT types.Type) Value {
 			return Ref{base: elems, idx: idx}
 		}
 	}
+	// non-scalar elements under a symbolic index: fork over runs of identical elements
+	type run struct{ lo, hi int }
+	var runs []run
+	for i := 0; i < len(elems); i++ {
+		if len(runs) > 0 && sameRefValue(elems[runs[len(runs)-1].lo], elems[i]) {
+			runs[len(runs)-1].hi = i
+		} else {
+			runs = append(runs, run{i, i})
+		}
+	}
+	if len(runs) <= 32 {
+		for ri, r := range runs {
+			inRun := BAnd(Ule(BV(64, uint64(r.lo)), idx), Ule(idx, BV(64, uint64(r.hi))))
+			if ri == len(runs)-1 || in.ex.branch(inRun) {
+				if r.lo == r.hi {
+					return &elems[r.lo]
+				}
+				return RORef{v: elems[r.lo]}
+			}
+		}
+	}
 	i := in.ex.concretize(idx, "index")
 	return &elems[i]
+}
+
+// sameRefValue: identical reference-like values (pointers, nil) - used to group table entries.
+func sameRefValue(a, b Value) bool {
+	switch x := a.(type) {
+	case *Value:
+		y, ok := b.(*Value)
+		return ok && x == y
+	case *Map:
+		y, ok := b.(*Map)
+		return ok && x == y
+	case *Chan:
+		y, ok := b.(*Chan)
+		return ok && x == y
+	}
+	return false
 }
 
 func (in *Interp) index(x Value, idx *Term, idxT types.Type) Value {
